@@ -152,7 +152,7 @@ func (c *FnCtx) modCall(call *ast.CallExpr, ms *modSet) {
 	con := c.V.specs.Contracts[typesFuncKey(callee.fn)]
 	if con != nil && con.Flags["frame-by-effects"] {
 		if ef := c.V.effects[typesFuncKey(callee.fn)]; ef != nil {
-			for k := range ef.W {
+			for _, k := range c.effectFieldKeys(ef) {
 				ms.heap[k] = true
 			}
 			for _, ck := range c.contentKeys(ef) {
@@ -163,7 +163,7 @@ func (c *FnCtx) modCall(call *ast.CallExpr, ms *modSet) {
 	if con == nil {
 		if c.isRepoFunc(callee.fn) {
 			if ef := c.V.effects[typesFuncKey(callee.fn)]; ef != nil && c.V.funcs[typesFuncKey(callee.fn)] != nil {
-				for k := range ef.W {
+				for _, k := range c.effectFieldKeys(ef) {
 					ms.heap[k] = true
 				}
 				for _, ck := range c.contentKeys(ef) {
